@@ -60,6 +60,7 @@ func quotes(ss []string) string {
 }
 
 func sortedQuotes(ss []string) string {
+	ss = append([]string(nil), ss...) // The argument may be shared (e.g. AllWebhookTypes, Config.ConfigVariables). Do not sort it in place
 	sort.Strings(ss)
 	return quotes(ss)
 }
